@@ -642,6 +642,23 @@ func cmdCheck(args []string) {
 	for _, c := range classes {
 		if k := matchKnown(knownHere, c); k != nil {
 			fmt.Printf("KNOWN-FINDING: property=%s %s — %s (seen %d times in this run)\n", id, c, k.Description, ag.failCount[c])
+			if k.Replay != "" {
+				dst := filepath.Join(verifDir, k.Replay)
+				if _, err := os.Stat(dst); err != nil {
+					// keep a minimised replay file of the known finding next to the others
+					ff := filepath.Join(tmp, "known-"+slug(c)+".json")
+					os.WriteFile(ff, ag.firstFail[c], 0o644)
+					mf := filepath.Join(tmp, "knownmin-"+slug(c)+".json")
+					cmd := exec.Command(bin, "-test.run", "^TestSim$", "-test.timeout", "0", "-prop", id, "-minimize", ff, "-out", mf, "-budget-ms", "20000")
+					cmd.Env = append(os.Environ(), "GOMAXPROCS=2", "GODEBUG=asynctimerchan=0")
+					if _, err := cmd.CombinedOutput(); err == nil {
+						if b, err := os.ReadFile(mf); err == nil {
+							os.MkdirAll(filepath.Dir(dst), 0o755)
+							os.WriteFile(dst, b, 0o644)
+						}
+					}
+				}
+			}
 			continue
 		}
 		unlisted++
